@@ -631,7 +631,11 @@ class CCtx:
         g = float(real_np.asarray(got))
         w = float(want)
         if (g != g) != (w != w):
-            self.failures.append((clause, "nan mismatch", g, w))
+            other = w if g != g else g
+            # NaN against a value that is zero up to rounding: sqrt of a difference that is exactly 0 in
+            # real arithmetic comes out as NaN or ~1e-6 depending on the last bit; not a violation
+            if abs(other) > 50 * self.atol:
+                self.failures.append((clause, "nan mismatch", g, w))
         elif g == g:
             # rtol for ordinary rounding; atol for cancellation under a square root (e.g. a
             # spread that is exactly 0 in real arithmetic evaluates to ~1e-6 in float64)
